@@ -106,6 +106,29 @@ def spelled(arg):
     return re.sub(r"\[[^\]]*\]", "[]", arg)
 
 
+DSTAR_POOL = ["o", "o.extra", "u.kw", "u"]
+STAR_POOL = ["t", "o.items", "u"]
+
+
+def decorate(rng, call, dstar_p=0.4, star_p=0.0):
+    """Source-level decorations the binding machinery must look THROUGH: `**mapping` unpackings at any
+    position among the keywords (before / between / after the explicit ones, one or two of them) and
+    `*iterable` unpackings among the positionals.  `dstar` / `star`: [[index, expression]] = written just before
+    the explicit keyword / positional of that index (index == len: at the end).  The explicit part of the call
+    (`args`, `kwargs`) is unchanged: it is the instance of the call in which every unpacked object is empty,
+    which is what CPython is asked about."""
+    call = dict(call)
+    if rng.random() < dstar_p:
+        nk = len(call["kwargs"])
+        k = rng.choice([1, 1, 1, 2])
+        # every position: bias towards "before an explicit keyword" (the unusual spelling)
+        idx = sorted(rng.choice(list(range(nk + 1)) + list(range(nk))) for _ in range(k))
+        call["dstar"] = [[i, e] for i, e in zip(idx, rng.sample(DSTAR_POOL, k))]
+    if rng.random() < star_p:
+        call["star"] = [[rng.randint(0, len(call["args"])), rng.choice(STAR_POOL)]]
+    return call
+
+
 def gen_call(rng, sig, want, permute=True, literals=False, tries=60):
     """A call of `sig` that CPython accepts (`want='ok'`) / rejects for an arity reason (`want='arity'`),
     outside the known-finding classes E1 / E2 (judged by the direct check).  Argument values are the
@@ -155,7 +178,41 @@ def gen_call(rng, sig, want, permute=True, literals=False, tries=60):
 
 
 def call_text(call):
-    return ", ".join(list(call["args"]) + [f"{k}={v}" for k, v in call["kwargs"]])
+    pos, kws = [], []
+    star, dstar = call.get("star") or [], call.get("dstar") or []
+    for i, a in enumerate(list(call["args"]) + [None]):
+        pos += ["*" + e for j, e in star if j == i]
+        if a is not None:
+            pos.append(a)
+    for i, kv in enumerate(list(call["kwargs"]) + [None]):
+        kws += ["**" + e for j, e in dstar if j == i]
+        if kv is not None:
+            kws.append(f"{kv[0]}={kv[1]}")
+    return ", ".join(pos + kws)
+
+
+def unpack_features(call):
+    """which unpacking shapes a call has (for the reach statistics and the violation signatures)"""
+    out = []
+    nk = len(call["kwargs"])
+    for j, _ in call.get("dstar") or []:
+        out.append("dict-unpacking:" + ("alone" if nk == 0 else "before-every-keyword" if j == 0 else
+                                        "after-every-keyword" if j == nk else "between-keywords"))
+    for j, _ in call.get("star") or []:
+        out.append("iterable-unpacking:" + ("last-positional" if j == len(call["args"]) else "before-a-positional"))
+    return out
+
+
+def firm_params(sig, call, pb):
+    """The parameters whose binding CPython fixes in EVERY instance of a call that has `*iterable` among its
+    positionals: those filled by a positional written before the first unpacking, and keyword-only ones."""
+    star = call.get("star") or []
+    if not star:
+        return None
+    first = min(j for j, _ in star)
+    pos = [p["name"] for p in sig["posonly"] + sig["args"]]
+    ko = {p["name"] for p in sig["kwonly"]}
+    return set(pos[:first]) | {p for p, _ in pb[1] if p in ko}
 
 
 def holders(sig, pb):
@@ -319,10 +376,20 @@ class Scenario:
         self.features = set()
 
 
-def rec(fn, text, want, init=None):
+def rec(fn, text, want, init=None, call=None):
     """One call site. `init` (initialiser calls only): what is needed to predict the PINNED behaviour for a
-    class that is imported (known finding: no implicit `self`): {isig, call, selfn, i, ps}."""
-    return {"fn": fn, "text": text, "want": want, "init": init, "pinned": None}
+    class that is imported (known finding: no implicit `self`): {isig, call, selfn, i, ps}.
+    `want`: 'ok' | 'arity' | 'missingRequired' (CPython on the explicit part of the call) | 'starred-ok' (explicit
+    part accepted, `*iterable` among the positionals: rattr announces it does not support the call)."""
+    return {"fn": fn, "text": text, "want": want, "init": init, "pinned": None,
+            "unpack": unpack_features(call) if call else []}
+
+
+def _candidates(call, p):
+    """every spelling a parameter that CPython leaves open (call with `*iterable`) may be rooted at"""
+    xs = [spelled(a) for a in call["args"]] + [spelled(v) for _, v in call["kwargs"]]
+    xs += ["*" + spelled(e) for _, e in call.get("star") or []]
+    return set(xs) | {p, "@Tuple", "@Dict"}
 
 
 EMPTY_BODIES = ["pass", "...", '"""Override me."""', "return 42", "return None", "return", "HELPER()"]
@@ -378,7 +445,7 @@ def sc_perm(rng, i, q=lambda n: n, static_ok=True):
         for _ in range(n_calls):
             call, pb = gen_call(rng, sig, "ok")
             if call is not None:
-                got.append((call, pb))
+                got.append((decorate(rng, call, 0.4, 0.15), pb))
         if not got:
             continue
         fn = f"use{i}_{j}"
@@ -390,15 +457,20 @@ def sc_perm(rng, i, q=lambda n: n, static_ok=True):
                 text = "await " + text
             last = idx == len(got) - 1
             lines.append(("return " + text) if (style == "return" and last) else (f"r{idx} = {text}" if style == "assign" else text))
-            sc.calls.append(rec(fn, text, "ok"))
+            sc.calls.append(rec(fn, text, "starred-ok" if call.get("star") else "ok", call=call))
+            sc.features.update(unpack_features(call))
         sc.callers += _caller(fn, lines) if form != "async" else ["async " + l if k == 0 else l for k, l in enumerate(_caller(fn, lines))]
         for bucket in ("gets", "sets", "dels"):
             want, free = set(), set()
             for call, pb in got:
                 hold = holders(sig, pb)
+                firm = firm_params(sig, call, pb)
                 for p in ps:
                     if kinds[p] == bucket:
-                        want.add(f"{hold.get(p, p)}.m{i}_{p}")
+                        if firm is None or p in firm:
+                            want.add(f"{hold.get(p, p)}.m{i}_{p}")
+                        else:
+                            free |= {f"{x}.m{i}_{p}" for x in _candidates(call, p)}
                 if bucket == "gets":
                     if touch_va:
                         want.add(f"@Tuple.m{i}_va")
@@ -473,6 +545,8 @@ def sc_cls(rng, i, q=lambda n: n):
         call, _ = gen_call(rng, sig, "ok")
         if call is None:
             continue
+        call = decorate(rng, call, 0.4, 0.0)
+        sc.features.update(unpack_features(call))
         c04 = _c04()
         tsp = spelled(target) if target else "@X"
         pb = c04.python_bind(isig, {"args": [tsp] + list(call["args"]), "kwargs": call["kwargs"]})
@@ -493,7 +567,7 @@ def sc_cls(rng, i, q=lambda n: n):
             sc.callers += _caller(fn, [f"{target}: {q(cname)} = {text}"])
         else:
             sc.callers += _caller(fn, [f"{target} = {text}"])
-        r = rec(fn, text, "ok", init={"isig": isig, "call": call, "selfn": selfn, "i": i, "ps": ps})
+        r = rec(fn, text, "ok", init={"isig": isig, "call": call, "selfn": selfn, "i": i, "ps": ps}, call=call)
         sc.calls.append(r)
         sc.features.add("class-target:" + form)
         gets = {f"{hold.get(p, p)}.s{i}_{p}" for p in ps}
@@ -563,6 +637,10 @@ def sc_calls(rng, i, q=lambda n: n, empty=True, static_ok=True):
             call, pb = gen_call(rng, sig, want, literals=True)
         if call is None:
             continue
+        call = decorate(rng, call, 0.4, 0.0 if has_self else 0.15)
+        sc.features.update(unpack_features(call))
+        if call.get("star") and want == "ok":
+            want = "starred-ok"
         text = f"{q(callee)}({call_text(call)})"
         fn = f"cl{i}_{j}"
         if has_self:
@@ -576,7 +654,7 @@ def sc_calls(rng, i, q=lambda n: n, empty=True, static_ok=True):
             lines[0] = "async " + lines[0]
         sc.callers += lines
         init = {"isig": with_self(sig), "call": call, "selfn": "self", "i": i, "ps": named(sig)} if has_self else None
-        sc.calls.append(rec(fn, text, want, init=init))
+        sc.calls.append(rec(fn, text, want, init=init, call=call))
     return sc
 
 
@@ -587,10 +665,13 @@ SCENARIOS = [("perm", sc_perm, 3), ("rec", lambda r, i, q, so: sc_rec(r, i, q), 
 
 
 class Module:
-    __slots__ = ("variant", "files", "target", "scenarios", "follow", "line_of")
+    __slots__ = ("variant", "files", "target", "scenarios", "follow", "line_of", "wlevel")
 
 
-def gen_module(rng, variant, n_scen=6):
+WLEVELS = ["all", "default", "local", "none"]
+
+
+def gen_module(rng, variant, n_scen=6, wlevel="all"):
     """variant: 'target' (everything in target.py, follow-imports 0), 'from-import' (callees in
     c04lib.py, `from c04lib import …`), 'module-import' (`import c04lib`, calls spelled `c04lib.f(…)`)."""
     q = (lambda n: "c04lib." + n) if variant == "module-import" else (lambda n: n)
@@ -603,6 +684,7 @@ def gen_module(rng, variant, n_scen=6):
     scs = [fns[k](rng, i, q, static_ok) for i, k in enumerate(chosen)]
     m = Module()
     m.variant, m.scenarios, m.target = variant, scs, "target.py"
+    m.wlevel = wlevel       # `-w`: errors are shown at EVERY warning level
     m.follow = 0 if variant == "target" else 1
     lib, tgt = [], []
     need_nt = any("needs-namedtuple" in s.features for s in scs)
@@ -650,14 +732,28 @@ def locate_calls(m):
 # ------------------------------------------------------------------ the real thing
 
 
-def argv_for(target_rel, follow):
+def argv_for(target_rel, follow, wlevel="all"):
     from props import pipeline
     a = pipeline.argv_for(target_rel)
     a[a.index("-f") + 1] = str(follow)
+    a[a.index("-w") + 1] = wlevel
     return a
 
 
-def real_run(project: Path, target_rel: str, follow: int):
+STDERR_LINE = re.compile(r"^(info|warning|error|fatal): (\S+?):(\d+):(\d+): (.*)$")
+
+
+def shown_lines(stderr_text):
+    """the diagnostics a user SEES: the located lines of stderr (after the warning-level filter)"""
+    out = []
+    for line in ANSI.sub("", stderr_text).splitlines():
+        mm = STDERR_LINE.match(line)
+        if mm:
+            out.append({"level": mm[1], "file": mm[2], "line": int(mm[3]), "message": mm[5]})
+    return out
+
+
+def real_run(project: Path, target_rel: str, follow: int, wlevel: str = "all"):
     """`rattr.__main__.main` in-process: outcome, printed document, the tapped diagnostics (raw events with
     line numbers AND the canonical templates the pipeline model speaks)."""
     import rattr.__main__ as main_mod
@@ -670,7 +766,7 @@ def real_run(project: Path, target_rel: str, follow: int):
         impl.clear_caches_fast()
         try:
             with impl.Tap():
-                args = parse_arguments(sys_args=argv_for(target_rel, follow))
+                args = parse_arguments(sys_args=argv_for(target_rel, follow, wlevel))
                 cfg = Config(arguments=args, state=State())
             captured = {}
             orig = main_mod.generate_results_from_ir
@@ -684,7 +780,8 @@ def real_run(project: Path, target_rel: str, follow: int):
         finally:
             pipeline._drop_config()
     diags = [pipeline.template_of(e) for e in tap.events]
-    r = {"diags": filelib.canon_diags(diags), "stdout": out.getvalue(), "store": None, "events": tap.events}
+    r = {"diags": filelib.canon_diags(diags), "stdout": out.getvalue(), "store": None, "events": tap.events,
+         "shown": shown_lines(tap.stderr)}
     if oc[0] == "ok" and "ir" in captured:
         r["store"] = [{"name": k.name, "gets": vl.names_json(v["gets"]), "sets": vl.names_json(v["sets"]),
                        "dels": vl.names_json(v["dels"])} for k, v in captured["ir"]._file_ir.items()]
@@ -703,10 +800,22 @@ def real_run(project: Path, target_rel: str, follow: int):
     return r
 
 
-def cli_run(project: Path, target_rel: str, follow: int, hashseed=0):
+def cli_run(project: Path, target_rel: str, follow: int, hashseed=0, wlevel="all", via_toml=False):
+    """the real CLI; `via_toml`: the warning level comes from `[tool.rattr] warning-level` of a pyproject.toml in the
+    project directory instead of `-w`"""
     env = dict(os.environ, PYTHONHASHSEED=str(hashseed), PYTHONDONTWRITEBYTECODE="1")
-    p = subprocess.run([sys.executable, "-m", "rattr", *argv_for(target_rel, follow)], cwd=str(project), env=env,
-                       capture_output=True, text=True, timeout=120)
+    argv = argv_for(target_rel, follow, wlevel)
+    toml = project / "pyproject.toml"
+    if via_toml:
+        k = argv.index("-w")
+        del argv[k:k + 2]
+        toml.write_text(f'[tool.rattr]\nwarning-level = "{wlevel}"\n')
+    try:
+        p = subprocess.run([sys.executable, "-m", "rattr", *argv], cwd=str(project), env=env,
+                           capture_output=True, text=True, timeout=120)
+    finally:
+        if via_toml:
+            toml.unlink()
     r = {"exit": p.returncode, "outcome": "ok" if p.returncode == 0 else "exit", "exc": str(p.returncode), "events": [], "doc": None}
     if p.returncode == 0:
         try:
@@ -714,10 +823,8 @@ def cli_run(project: Path, target_rel: str, follow: int, hashseed=0):
             r["doc"] = {k: {f: sorted(v[f]) for f in ("gets", "sets", "dels", "calls")} for k, v in doc.items()}
         except Exception:  # noqa
             r["outcome"], r["exc"] = "crash", "unparseable-stdout"
-    for line in ANSI.sub("", p.stderr).splitlines():
-        mm = re.match(r"^(info|warning|error|fatal): (\S+?):(\d+):(\d+): (.*)$", line)
-        if mm:
-            r["events"].append({"level": mm[1], "file": mm[2], "line": int(mm[3]), "message": mm[5]})
+    r["events"] = shown_lines(p.stderr)
+    r["shown"] = r["events"]
     return r
 
 
@@ -747,7 +854,8 @@ def predict_pinned(model, mods):
 def judge_module(m, run, where):
     """Violations of the property in one run (in-process or CLI) of module `m`."""
     out = []
-    base_case = {"stage": "module", "variant": m.variant, "through": where, "follow_imports": m.follow, "files": m.files}
+    base_case = {"stage": "module", "variant": m.variant, "through": where, "follow_imports": m.follow,
+                 "warning_level": m.wlevel, "files": m.files}
     if run["outcome"] != "ok" or run.get("doc") is None:
         return [{"signature": f"end-to-end:run-failed:{run['outcome']}", "case": base_case, "detail": run.get("exc")}]
     doc = run["doc"]
@@ -782,33 +890,53 @@ def judge_module(m, run, where):
             else:
                 v["signature"] = f"end-to-end:inlined-names-differ-from-python-binding:{s.kind}:" + \
                     ("argument-spelled-like-a-parameter" if "arguments-overlap-parameter-names" in s.features else "plain-arguments")
+            unp = sorted({u.split(":")[0] for c in s.calls if c["fn"] == fn for u in c["unpack"]})
+            if unp and not v["signature"].startswith(IMPORTED_INIT):
+                v["signature"] += ":call-with-" + "+".join(unp)
+                v["unpackings"] = sorted({u for c in s.calls if c["fn"] == fn for u in c["unpack"]})
             out.append(v)
         for r in s.calls:
             fn, text, want = r["fn"], r["text"], r["want"]
             if (fn, text) not in loc:
                 continue
             fname, line = loc[(fn, text)]
-            evs = [e for e in run["events"] if e.get("line") == line and e["message"].startswith("call to ")
-                   and (e.get("file") is None or e["file"].endswith(fname))]
+            at_line = [e for e in run["events"] if e.get("line") == line
+                       and (e.get("file") is None or e["file"].endswith(fname))]
+            evs = [e for e in at_line if e["message"].startswith("call to ")]
             errs = [e for e in evs if e["level"] in ("error", "fatal")]
+            # what the user SEES (stderr, after the `-w` filter): errors are shown at every warning level
+            shown = [e for e in run.get("shown", run["events"]) if e.get("line") == line and e["file"].endswith(fname)
+                     and e["level"] in ("error", "fatal")]
             kind_feat = next((f for f in s.features if f.startswith(("empty-callee:", "touching-callee:"))), s.kind)
             bad = None
             if want == "arity" and not errs:
                 bad = "rejected-call-not-diagnosed"
+            elif want == "arity" and not [e for e in shown if e["message"].startswith("call to ")]:
+                bad = "rejected-call-diagnostic-raised-but-not-shown"
             elif want == "ok" and evs:
                 bad = "accepted-call-diagnosed"
+            elif want == "starred-ok" and not [e for e in at_line if e["level"] in ("error", "fatal")]:
+                bad = "call-with-iterable-unpacking-not-announced"
+            elif want == "starred-ok" and not shown:
+                bad = "call-with-iterable-unpacking-announcement-not-shown"
             if bad is None:
                 continue
             v = {"case": base_case, "function": fn, "call": text, "line": f"{fname}:{line}", "python": want,
                  "callee_kind": kind_feat, "definition": s.lib, "diagnostics_at_line": evs}
-            if r["init"] is not None and imported:
+            if r["init"] is not None and imported and bad in ("rejected-call-not-diagnosed", "accepted-call-diagnosed"):
                 pin = r["pinned"]
                 same = pin is not None and pin["diagnosed"] == bool(errs)
                 v["signature"] = IMPORTED_INIT + (bad if same else "not-the-pinned-behaviour:" + bad)
             elif bad == "rejected-call-not-diagnosed":
                 v["signature"] = f"end-to-end:rejected-call-not-diagnosed:{kind_feat.split(':')[0]}"
-            else:
+            elif bad == "accepted-call-diagnosed":
                 v["signature"] = "end-to-end:accepted-call-diagnosed"
+            else:
+                v["signature"] = f"end-to-end:{bad}:warning-level-{m.wlevel}"
+            if r["unpack"]:
+                v["unpackings"] = r["unpack"]
+                if bad in ("rejected-call-not-diagnosed", "accepted-call-diagnosed") and not v["signature"].startswith(IMPORTED_INIT):
+                    v["signature"] += ":call-with-" + "+".join(sorted({u.split(":")[0] for u in r["unpack"]}))
             out.append(v)
     return out
 
@@ -826,8 +954,10 @@ def module_stage(res, rng, n, model, cli_sample=4):
     variants = ["target", "target", "from-import", "module-import"]
     # a fixed corpus first (one module per variant, the same on every run), then this run's modules
     fixed = random.Random(0xC04)
-    mods = [gen_module(fixed, v) for v in ("target", "from-import", "module-import", "target")]
-    mods += [gen_module(rng, variants[k % len(variants)]) for k in range(n)]
+    # every (variant, warning level) pair is in the fixed corpus; this run's modules cycle through the pairs with a
+    # stride that is coprime to both cycle lengths
+    mods = [gen_module(fixed, v, wlevel=w) for v in ("target", "from-import", "module-import") for w in WLEVELS]
+    mods += [gen_module(rng, variants[k % len(variants)], wlevel=WLEVELS[(k // len(variants) + k) % len(WLEVELS)]) for k in range(n)]
     predict_pinned(model, mods)
     projects, live = [], []
     try:
@@ -838,6 +968,7 @@ def module_stage(res, rng, n, model, cli_sample=4):
                 (project / rel).write_text(text)
             res.evaluations += 1
             res.count("module:variant:" + m.variant)
+            res.count(f"module:warning-level:{m.wlevel}:{m.variant}")
             for s in m.scenarios:
                 res.count("module:scenario:" + s.kind)
                 for f in s.features:
@@ -853,7 +984,7 @@ def module_stage(res, rng, n, model, cli_sample=4):
                 else:
                     res.skipped_outside_fragment += 1
                     res.count("module:model-skipped:" + fc.skipped[:40])
-            run = real_run(project, m.target, m.follow)
+            run = real_run(project, m.target, m.follow, m.wlevel)
             res.nontrivial.add(common.digest(m.files))
             vs = judge_module(m, run, "in-process")
             res.count("module:verdict:" + ("holds" if not vs else "violated"))
@@ -902,18 +1033,22 @@ def module_stage(res, rng, n, model, cli_sample=4):
         # ---- the real CLI in a subprocess, on a sample (every variant)
         order = list(range(len(live)))
         rng.shuffle(order)
-        picked, seen_var = [], {}
+        picked, seen_var, seen_w = [], {}, {}
         for k in order:
-            v = live[k][0].variant
-            if seen_var.get(v, 0) < max(1, cli_sample // 3) and len(picked) < cli_sample:
+            v, w = live[k][0].variant, live[k][0].wlevel
+            if seen_var.get(v, 0) < max(1, -(-cli_sample // 3)) and seen_w.get(w, 0) < max(1, -(-cli_sample // 4)) \
+                    and len(picked) < cli_sample:
                 picked.append(k)
                 seen_var[v] = seen_var.get(v, 0) + 1
-        for k in picked:
+                seen_w[w] = seen_w.get(w, 0) + 1
+        for n_cli, k in enumerate(picked):
             m, project, _, run = live[k]
-            cli = cli_run(project, m.target, m.follow, hashseed=rng.randrange(1, 1000))
+            via_toml = n_cli % 2 == 1
+            cli = cli_run(project, m.target, m.follow, hashseed=rng.randrange(1, 1000), wlevel=m.wlevel, via_toml=via_toml)
             res.evaluations += 1
             res.count("module:cli:exit:" + str(cli["exit"]))
-            vs = judge_module(m, cli, "cli")
+            res.count(f"module:cli:warning-level:{m.wlevel}:" + ("pyproject.toml" if via_toml else "-w"))
+            vs = judge_module(m, cli, "cli:pyproject.toml" if via_toml else "cli")
             res.violations += vs
             if run["outcome"] == "ok" and cli["outcome"] == "ok" and cli["doc"] != run["doc"]:
                 fn = next(f for f in sorted(set(cli["doc"]) | set(run["doc"])) if cli["doc"].get(f) != run["doc"].get(f))
@@ -937,10 +1072,11 @@ def replay_case(j):
             for rel, text in case["files"].items():
                 (project / rel).write_text(text)
                 print(f"# ---- {rel}\n{text}")
-            if case.get("through") == "cli":
-                run = cli_run(project, "target.py", case["follow_imports"])
+            if str(case.get("through", "")).startswith("cli"):
+                run = cli_run(project, "target.py", case["follow_imports"], wlevel=case.get("warning_level", "all"),
+                              via_toml=case["through"].endswith("pyproject.toml"))
             else:
-                run = real_run(project, "target.py", case["follow_imports"])
+                run = real_run(project, "target.py", case["follow_imports"], case.get("warning_level", "all"))
         finally:
             filelib.drop_project(project)
         fn = j.get("function")
@@ -952,7 +1088,8 @@ def replay_case(j):
         if "call" in j:
             line = int(j["line"].split(":")[1])
             print("call", j["call"], "at", j["line"], "\n recorded diagnostics", j.get("diagnostics_at_line"),
-                  "\n now", [e for e in run["events"] if e.get("line") == line])
+                  "\n now raised", [e for e in run["events"] if e.get("line") == line],
+                  "\n now shown on stderr (-w " + case.get("warning_level", "all") + ")", [e for e in run.get("shown", []) if e.get("line") == line])
         return 0
     print(json.dumps(j, indent=1))
     return 0
